@@ -150,6 +150,55 @@ theorem set_lsb0_mirror (l : Bits) (b : Bool) (P : PosSpec) :
   | many ps => exact setMany_mirror b ps l
   | range a b' c => exact setOp_range_mirror l b a b' c
 
+/-! ### `x[a:b:c] = <int>` -/
+
+/-- With a step of None, 1 or -1 the integer is first turned into a bit string as wide as the slice (the same one
+    in both modes) and then assigned like any bitstring … -/
+theorem setsliceint_eq_setslice (m : Mode) (l : Bits) (k : Key) (v : Int)
+    (hstep : k.step = none ∨ k.step = some 1 ∨ k.step = some (-1)) :
+    setSliceInt m l k v = match intOperand l.length k v with
+      | .error e => .error e
+      | .ok bits => setSliceBits m l k bits := by
+  have h : ¬ (k.step ≠ none ∧ k.step ≠ some (-1) ∧ k.step ≠ some 1) := by
+    rcases hstep with h | h | h <;> simp [h]
+  unfold setSliceInt intOperand setSliceBits
+  simp only [h, if_false]
+  split
+  · rfl
+  · split
+    · split <;> rfl
+    · split <;> rfl
+
+/-- … so the mirror law holds with that bit string as the operand: the value read back from the slice is the
+    same integer in both modes. -/
+theorem setsliceint_lsb0_mirror (l : Bits) (k : Key) (v : Int)
+    (hstep : k.step = none ∨ k.step = some 1 ∨ k.step = some (-1)) :
+    setSliceInt .lsb0 l k v = match intOperand l.length k v with
+      | .error e => .error e
+      | .ok bits => (setSliceBits .msb0 l.reverse k bits.reverse).map List.reverse := by
+  rw [setsliceint_eq_setslice .lsb0 l k v hstep]
+  cases intOperand l.length k v with
+  | error e => rfl
+  | ok bits => exact setslice_mirror l k bits
+
+/-- With any other step only 0 and 1 are accepted and written to every selected position (`set(value, range)`):
+    a plain mirror. -/
+theorem setsliceint_extended_lsb0_mirror (l : Bits) (k : Key) (v : Int)
+    (hstep : k.step ≠ none ∧ k.step ≠ some (-1) ∧ k.step ≠ some 1) :
+    setSliceInt .lsb0 l k v = (setSliceInt .msb0 l.reverse k v).map List.reverse := by
+  unfold setSliceInt
+  simp only [hstep, ne_eq, not_false_eq_true, and_self, if_true, List.length_reverse]
+  split
+  · cases hk : k.step with
+    | none => exact absurd hk hstep.1
+    | some c =>
+      by_cases hc : c = 0
+      · subst hc; rfl
+      · have : (some c : Option Int) ≠ some 0 := by simpa using hc
+        simp only []
+        exact set_lsb0_mirror l _ _
+  · rfl
+
 theorem all_lsb0_mirror (l : Bits) (b : Bool) (P : PosSpec) : allOp .lsb0 l b P = allOp .msb0 l.reverse b P := by
   unfold allOp
   cases posList P with
